@@ -829,6 +829,41 @@ def run_c16(tier, seed, wd, info, verdict):
     res["participant_lists_binding_other_endpoints"] = dict(scenarios=len(bscs2), contribution_messages=nmsg)
     res["concurrent_arrival"] = dict(scenarios=len(ssc), non_peer_calls_made=sum(e["non_peer_calls"] for sc_ in ssc for e in sby[sc_["id"]] if e["ev"] == "StormEnd"),
                                      non_peer_calls_in_trace=nconc, contribution_replies_to_peers=nrep)
+    # (f) "only between peers" on the SENDING side of the real transport: two real dirk binaries and, at the configured ADDRESS of the
+    #     third peer, a server of this harness that holds a certificate for that name issued by an authority of the HOST's trust store -
+    #     not by the cluster's configured authority.  It accepts the binaries' certificates and would answer every key-generation
+    #     message; the binaries' services/sender/grpc must not talk to it: whatever reaches its handlers (a prepare, a share) is a
+    #     key-generation message sent to somebody who is not a peer
+    iscs = [dict(id="C16-impostor-%d" % i_, ids=[1, 2, 3], n=3, t=2, initiator=1 + i_ % 2, account="DW/imp%d" % i_, generate=True, probe=False, faulty_grpc=True,
+                 faults=[dict(site="contribute.rep", **{"from": 3, "to": 0, "kind": "impostor"})]) for i_ in range(2 if tier == "quick" else 6)]
+    with ThreadPoolExecutor(max_workers=2) as ex:
+        iouts = list(ex.map(lambda a: run_dkgdrv([a[1]], wd, "c16imp%d" % a[0], timeout=600, dirk=build_dirk()), enumerate(iscs)))
+    ilines, iindex = [], []
+    for sc_, (evs_, rc_, err_) in zip(iscs, iouts):
+        if rc_ != 0:
+            raise Inconclusive("impostor at a peer's address: dkgdrv exited %s: %s" % (rc_, err_[-400:]))
+        out_ = [e for e in evs_ if e["ev"] == "Outcome"]
+        if not out_ or out_[0].get("hung"):
+            raise Inconclusive("impostor at a peer's address: generation %s got no answer" % sc_["id"])
+        start = len(ilines) + 1
+        ilines.append(dict(ev="Begin", sc=sc_["id"]))
+        for e in evs_:
+            if e["ev"] == "Misdelivery":
+                ilines.append(dict(ev="Misdelivery", id=e["id"], name=e["name"], port=e["port"], reached=e["reached"], **{"from": e["from"]}))
+        if out_[0]["ok"] and len(ilines) == start:
+            raise Inconclusive("impostor at a peer's address: generation %s succeeded without the impostor seeing a message" % sc_["id"])
+        iindex.append((start, len(ilines), sc_["id"]))
+    ok, violated, pos, extra = validate("SessionTrace", ilines, ["PeersOnly"], wd, name="SessionTraceImpostor")
+    tr = extra if ok else extra[0]
+    info["states"] += tr.distinct
+    info["transitions"] += tr.generated
+    if not ok:
+        sid = locate(iindex, pos)
+        sc = [s_ for s_ in iscs if s_["id"] == sid][0]
+        verdict.violation("%s:impostor" % violated, "%s: a dirk binary sent a key-generation message to a server at a peer's address whose certificate is NOT of the configured "
+                          "authority (host trust store): %s %s" % (sid, ilines[pos - 2] if pos and pos >= 2 else "", extra[1]),
+                          dict(scenario=sc, trace=[ilines[pos - 2]] if pos and pos >= 2 else [], invariant=violated, module="SessionTrace", impostor=True))
+    res["impostor_at_peer_address"] = dict(scenarios=len(iscs), refused_by_the_binaries=sum(1 for a, b, _ in iindex if a == b))
     # (c) the same boundary over the REAL transport: every key-generation method x every kind of caller credential (no certificate,
     #     foreign / self-signed / expired certificates, genuine client certificates, genuine certificates followed by an unverified
     #     one that names a peer) x every server certificate set-up; only a caller whose VERIFIED name is a peer's may get anything
@@ -1057,8 +1092,11 @@ def replay(prop, path):
     wd = workdir(prop + "-replay")
     try:
         sc = obj["scenario"]
-        if obj.get("bind"):
-            evs, rc, err = run_dkgdrv([sc], wd, "replay")
+        if obj.get("bind") or obj.get("impostor"):
+            evs, rc, err = run_dkgdrv([sc], wd, "replay", dirk=build_dirk() if obj.get("impostor") else None)
+            if rc != 0:
+                print(err[-400:])
+                return 2
             ls = [dict(ev="Begin", sc=sc["id"])] + [dict(ev="Misdelivery", id=e["id"], name=e["name"], port=e["port"], reached=e["reached"], **{"from": e["from"]}) for e in evs if e["ev"] == "Misdelivery"]
             for ln in ls:
                 print(json.dumps(ln))
